@@ -9,7 +9,7 @@ LEVEL = "model_checking"
 ANCHOR_PREFIXES = ["loop_el::", "context::TransformerContext::inc_depth", "context::TransformerContext::dec_depth", "context::", "transform::", "expression::eval_condition", "functions::"]
 BOUNDS = ("loop-limit L in 0..3 with while / until loops whose trip count is governed by a symbolic integer bound in [-2,8] (every trip count 0..L+2 is a solver-found path), bodies of 1-2 elements, "
           "loops at top level and inside <g>; count loops and <for> loops with concrete trip counts 0..L+2 (ground); depth-limit d+2 (d = the template's nesting depth) with a while loop emitting "
-          "N <= 6 sibling elements (N symbolic) of kinds {text with content, defs, nested svg, linearGradient, g, rect, reuse, a, marker, clipPath}; nesting depth D-1/D/D+1 and var-limit boundaries as ground queries")
+          "N <= 6 sibling elements (N symbolic) of kinds {text with content, defs, nested svg, linearGradient, g, rect, reuse, a, marker, clipPath}; documents with 1-8 forward-referencing (retried) elements at nesting depth D with depth-limit D and D+1; nesting depth D-1/D/D+1 and var-limit boundaries as ground queries")
 ASSUMPTIONS = ["a loop 'runs more than loop-limit iterations' when its body would be entered more than loop-limit times (test-suite: count=100 passes and count=101 fails with loop-limit=100)",
                "nesting depth counts element levels (test-suite: g>g>g>rect needs depth-limit 4); the symbolic length templates leave two levels of slack so that they do not depend on how an element's own text content is counted"]
 
@@ -38,6 +38,10 @@ def templates(tier, seed):
     for k in (1, 2, 3, 5):
         for delta in (-1, 0, 1):
             tds.append(dict(fam="depth-nesting", k=k, delta=delta))
+    for nfwd in (1, 2, 3, 5, 8):
+        for where in ("top", "in-g", "in-g-g"):
+            for slack in (0, 1):
+                tds.append(dict(fam="depth-retries", nfwd=nfwd, where=where, slack=slack))
     for lim in (4, 16):
         for delta in (-1, 0, 1):
             tds.append(dict(fam="var-limit", lim=lim, delta=delta))
@@ -126,6 +130,20 @@ def build(td, wrong=False):
             good = (r.status == "ok") if want_ok else (r.status == "err")
             return [Obl(f"nesting-{depth}-limit-{lim}", PASS if good else FAIL, ground=True, note=r.status + " " + r.docs[0]["msg"][:100])]
         return Template(f"depth-nesting/k{k}/d{delta}", doc, [(1, -8, 8, 0)], check, family="depth-nesting", role="C17/depth-nesting", cap=2)
+    if fam == "depth-retries":
+        # elements that have to be retried (forward references) must not use up nesting depth
+        nfwd, where = td["nfwd"], td["where"]
+        fw = "".join(f'<rect xy="#later|h [[0]]" wh="{j + 1}"/>' for j in range(nfwd))
+        wrap = {"top": ("", "", 2), "in-g": ("<g>", "</g>", 3), "in-g-g": ("<g><g>", "</g></g>", 4)}[where]
+        depth = wrap[2]
+        lim = depth + td["slack"] + (-1 if wrong else 0)
+        doc = f'<svg><config depth-limit="{lim}"/>{wrap[0]}{fw}{wrap[1]}<rect id="later" xy="0" wh="2"/></svg>'
+
+        def check(r):
+            if r.status == "ok":
+                return [Obl("retried-elements-do-not-consume-depth", PASS, ground=True)]
+            return [Obl("retried-elements-do-not-consume-depth", FAIL, ground=True, note=r.docs[0]["msg"][:200])]
+        return Template(f"depth-retries/{nfwd}/{where}/slack{td['slack']}", doc, [(1, -8, 8, 0)], check, family="depth-retries", role="C17/depth-retries", cap=2)
     if fam == "var-limit":
         lim, delta = td["lim"], td["delta"]
         n = lim + delta
